@@ -213,7 +213,11 @@ def _rmtree(p):
         for f in files:
             os.unlink(os.path.join(d, f))
         for s in dirs:
-            os.rmdir(os.path.join(d, s))
+            q = os.path.join(d, s)
+            if os.path.islink(q):
+                os.unlink(q)  # a link to a directory (os.walk lists it under dirs)
+            else:
+                os.rmdir(q)
     os.rmdir(p)
 
 
@@ -677,6 +681,11 @@ class Session:
             apply_op(self.model, tuple(op))
             exec_op(tuple(op), self.root, self.out)
         self.start_tree = {p: v[0] for p, v in self.model.tree.items()}
+        # symbolic links to directories outside the tree, present before the watch starts (names outside the op universe,
+        # unknown to the model; only checks whose oracle does not enumerate the tree use them)
+        for rel, slot in cfg.get("links", []):
+            os.makedirs(os.path.join(self.out, slot), exist_ok=True)
+            os.symlink(os.path.join(self.out, slot), os.path.join(self.root, rel))
         self.oldcwd = os.getcwd()
         tw = cfg.get("twin")
         if cfg.get("spelling", "abs") in ("rel", "relslash") or (tw and tw.get("spelling") in ("rel", "relslash", "reldot")):
